@@ -11,7 +11,7 @@ one() {
   if ! (cd $S && patch -p1 -s --no-backup-if-mismatch < $d/patch.diff) >/dev/null 2>&1; then echo "$id PATCH-FAILED"; rm -rf $S; return; fi
   res=""; detail=""
   for P in C02 C04 C05 C06 C07 C08 C09 C10 C11 C13 C15 C16 C17 C18 C19 C20; do
-    out=$(CRRL_REPO=$S CRRL_EVIDENCE_DIR=$S/evidence ./check $P 2>&1)
+    out=$(CRRL_REPO=$S CRRL_EVIDENCE_DIR=$S/evidence CRRL_CONFIGS=${CONFIGS:-} ./check $P 2>&1)
     nv=$(echo "$out" | grep -c "^VIOLATION")
     if [ "$nv" != "0" ]; then res="$res $P:$nv"; detail="$detail$(echo "$out" | grep -A3 "^VIOLATION" | grep -v "^--\|^VIOLATION\|rule=\|path:" | cut -c1-300 | head -3 | sed "s/^/    [$id $P] /")
 "; fi
